@@ -16,7 +16,7 @@ import re
 from .common import *
 from .c02 import mul_pair
 from .c03 import div_pair
-from .knuth import addback_pairs
+from .knuth import addback_pairs, d3_boundary_pairs
 from .c10 import numeral, str_case, digits_case
 from .c06 import runs_value
 from .c07 import cmp_pair
@@ -381,6 +381,12 @@ def _group_requests(rng, group, W, s, wide):
             for (u, v) in addback_pairs(rng, wk, nk, 1, tries=1500):
                 reqs.append(("checked_div", f"{hx(u)} {hx(v)}", "knuth-addback", None))
                 reqs.append(("checked_rem", f"{hx(u)} {hx(v)}", "knuth-addback", None))
+        if nk >= 2 and not sg:
+            # operands on which Algorithm D's refinement test is within one of an exact tie (ordinary and clamped
+            # estimate), constructed for this member's digit size (seeded change C16-r5m1)
+            for (u, v) in d3_boundary_pairs(rng, wk, min(nk, 24), 3, tries=400):
+                reqs.append(("checked_div", f"{hx(u)} {hx(v)}", "knuth-d3-tie", None))
+                reqs.append(("checked_rem", f"{hx(u)} {hx(v)}", "knuth-d3-tie", None))
     # operator forms (std::ops traits) where the c17 bin has more than one digit type of this width
     g17 = GROUPS17.get(W)
     if g17:
